@@ -1,11 +1,17 @@
 import BreezyVerif.Model.C23
+import BreezyVerif.Lemmas.C23B
 /-!
 C23 — checkouts and their master branches stay in step.
 
-All theorems quantify over *every* state (any graph, any tips, any tree
-parents, any log) and, for `run_master_first`, over every operation sequence.
+The per-operation theorems quantify over *every* state (any graph, any tips,
+any tree parents, any log); the `run_…` theorems over every operation sequence
+of any length (induction, invariants of reachable states).  Everything stated
+for the first heavyweight checkout holds for the second one by the symmetry
+`h2_symmetry` (the second checkout is the first one with the roles exchanged).
 -/
 namespace BreezyVerif.C23
+
+/-! ### commits -/
 
 /-- **master first**: a successful commit in the bound checkout ends with
 master tip = local tip = the new revision; the master's tip is written first,
@@ -16,18 +22,29 @@ theorem bound_commit_master_first (s : St) (r : Rev) (hb : s.bound = true)
     (step s (.commit .H r false)).1.log = ⟨.loc, r, .boundCommit⟩ :: ⟨.master, r, .boundCommit⟩ :: s.log ∧
     (step s (.commit .H r false)).1.tH = ⟨r, []⟩ := by
   simp only [step, commitH, hb] at h ⊢
-  by_cases h1 : s.loc != s.master
-  · simp [h1] at h
-  · by_cases h2 : !treeUpToDate s.tH s.master
-    · simp [h1, h2] at h
-    · simp [h1, h2]
+  by_cases h0 : s.masterBound = true
+  · simp [h0] at h
+  · by_cases h1 : s.loc != s.master
+    · simp [h0, h1] at h
+    · by_cases h2 : !treeUpToDate s.tH s.master
+      · simp [h0, h1, h2] at h
+      · simp [h0, h1, h2]
 
 /-- **refused**: when the master has moved or diverged (its tip differs from
 the local tip) the bound commit is refused and nothing changes -/
 theorem bound_commit_refused_noop (s : St) (r : Rev) (hb : s.bound = true) (hne : s.loc ≠ s.master) :
-    step s (.commit .H r false) = (s, .boundOutOfDate) := by
+    (step s (.commit .H r false)).2 ≠ .ok ∧ (step s (.commit .H r false)).1 = s ∧
+    (s.masterBound = false → (step s (.commit .H r false)).2 = .boundOutOfDate) := by
   have : (s.loc != s.master) = true := by simpa using hne
-  simp [step, commitH, hb, this]
+  by_cases h0 : s.masterBound = true
+  · simp [step, commitH, hb, h0]
+  · simp [step, commitH, hb, this, h0]
+
+/-- **a bound master**: a commit through a checkout whose master is itself
+bound is refused with `CommitToDoubleBoundBranch`; nothing changes -/
+theorem double_bound_commit_refused (s : St) (r : Rev) (hb : s.bound = true) (hm : s.masterBound = true) :
+    step s (.commit .H r false) = (s, .doubleBound) := by
+  simp [step, commitH, hb, hm]
 
 /-- **--local**: a successful local commit needs a bound branch and changes
 only the local branch (and the checkout's tree) -/
@@ -35,7 +52,8 @@ theorem local_commit_only_local (s : St) (r : Rev) (h : (step s (.commit .H r tr
     s.bound = true ∧
     (step s (.commit .H r true)).1.master = s.master ∧ (step s (.commit .H r true)).1.loc = r ∧
     (step s (.commit .H r true)).1.log = ⟨.loc, r, .commit⟩ :: s.log ∧
-    (step s (.commit .H r true)).1.tM = s.tM ∧ (step s (.commit .H r true)).1.tL = s.tL := by
+    (step s (.commit .H r true)).1.tM = s.tM ∧ (step s (.commit .H r true)).1.tL = s.tL ∧
+    (step s (.commit .H r true)).1.loc2 = s.loc2 := by
   simp only [step, commitH] at h ⊢
   by_cases hb : s.bound = true
   · by_cases h2 : !treeUpToDate s.tH s.loc
@@ -58,23 +76,18 @@ master -/
 theorem master_commit_only_master (s : St) (w : Who) (r : Rev) (l : Bool) (hw : w ≠ .H)
     (h : (step s (.commit w r l)).2 = .ok) :
     (step s (.commit w r l)).1.master = r ∧ (step s (.commit w r l)).1.loc = s.loc ∧
-    (step s (.commit w r l)).1.tH = s.tH ∧ (step s (.commit w r l)).1.bound = s.bound := by
+    (step s (.commit w r l)).1.tH = s.tH ∧ (step s (.commit w r l)).1.bound = s.bound ∧
+    (step s (.commit w r l)).1.loc2 = s.loc2 := by
   cases w with
   | H => exact absurd rfl hw
   | M =>
     simp only [step, commitMaster] at h ⊢
-    cases l
-    · by_cases h2 : !treeUpToDate s.tM s.master
-      · simp [h2] at h
-      · simp [h2]
-    · simp at h
+    grind
   | L =>
     simp only [step, commitMaster] at h ⊢
-    cases l
-    · by_cases h2 : !treeUpToDate s.tL s.master
-      · simp [h2] at h
-      · simp [h2]
-    · simp at h
+    grind
+
+/-! ### update -/
 
 /-- **update equalises** (*partial*: for a master that has at least one
 revision, see `update_empty_master_witness`): update in the bound checkout
@@ -102,10 +115,14 @@ theorem update_empty_master_witness :
     (step s (.update .H)).2 = .ok ∧ (step s (.update .H)).1.loc = "r1" ∧
     (step s (.update .H)).1.loc ≠ (step s (.update .H)).1.master := by decide
 
-/-- **pull**: pulling from the master either is refused as diverged (nothing
-changes), or leaves the local tip equal to the master tip, or changes nothing
-because the master is empty or its tip is already in the local branch -/
-theorem pull_equalises_or_refuses (s : St) :
+/-! ### pull from the master -/
+
+/-- **pull** (*partial*: the third alternative leaves the local tip different
+from the master tip, see `pull_local_ahead_witness`): pulling from the master
+either is refused as diverged (nothing changes), or leaves the local tip equal
+to the master tip, or changes nothing because the master is empty or its tip is
+already in the local branch -/
+theorem pull_equalises_or_refuses_partial (s : St) :
     ((step s .pull).2 = .diverged ∧ (step s .pull).1 = s) ∨
     ((step s .pull).2 = .ok ∧ (step s .pull).1.master = s.master ∧
       ((step s .pull).1.loc = s.master ∨
@@ -119,244 +136,61 @@ theorem pull_equalises_or_refuses (s : St) :
       · left; simp [h1, h2, h3]
       · right; simp [h1, h2, h3]
 
-/-- shape of a step: either refused with the state untouched, or accepted with
-the log extended by nothing, by one entry that is not a bound-commit local
-write, or by the (local, master) pair of a bound commit -/
-def Shape (s : St) (x : St × Out) : Prop :=
-  (x.2 ≠ .ok ∧ x.1 = s) ∨
-  (x.2 = .ok ∧ (x.1.log = s.log ∨
-    (∃ e : Entry, (e.br == .loc && e.cause == .boundCommit) = false ∧ x.1.log = e :: s.log) ∨
-    (∃ r : Rev, x.1.log = ⟨.loc, r, .boundCommit⟩ :: ⟨.master, r, .boundCommit⟩ :: s.log)))
+/-- **pull equalises**: when the local branch does not already contain the
+master's (non-null) tip, a pull that is not refused leaves local tip = master
+tip, the tree based on it, and the master untouched -/
+theorem pull_equalises (s : St) (hm : s.master ≠ null) (hna : isAncestor s.graph s.master s.loc = false)
+    (hok : (step s .pull).2 = .ok) :
+    (step s .pull).1.loc = s.master ∧ (step s .pull).1.master = s.master ∧ (step s .pull).1.tH.basis = s.master := by
+  have hm' : (s.master == null) = false := by simpa using hm
+  simp only [step, pullH, hm', hna] at hok ⊢
+  by_cases h3 : !isAncestor s.graph s.loc s.master
+  · simp [h3] at hok
+  · simp [h3]
 
-theorem commitH_shape (s : St) (r : Rev) (l : Bool) : Shape s (commitH s r l) := by
-  unfold commitH
-  split
-  · left; exact ⟨by simp, rfl⟩
-  · split
-    · split
-      · left; exact ⟨by simp, rfl⟩
-      · split
-        · left; exact ⟨by simp, rfl⟩
-        · right; exact ⟨rfl, Or.inr (Or.inr ⟨r, rfl⟩)⟩
-    · split
-      · left; exact ⟨by simp, rfl⟩
-      · right; exact ⟨rfl, Or.inr (Or.inl ⟨⟨.loc, r, .commit⟩, by simp, rfl⟩)⟩
+/-- **Witness (local ahead)**: after a `--local` commit on top of the master's
+tip a pull from the master succeeds, changes nothing and leaves the local tip
+*different* from the master tip (the local branch already contains it) - the
+"leave the local branch equal to the master" of the statement does not hold for
+pull in this case; it is `update` that equalises -/
+theorem pull_local_ahead_witness :
+    let s := run init [.commit .M "r1" false, .update .H, .commit .H "r2" true]
+    s.bound = true ∧ s.master = "r1" ∧ s.loc = "r2" ∧
+    (step s .pull).2 = .ok ∧ (step s .pull).1 = s ∧ (step s .pull).1.loc ≠ (step s .pull).1.master := by decide
 
-theorem commitMaster_shape (s : St) (w : Who) (r : Rev) (l : Bool) : Shape s (commitMaster s w r l) := by
-  cases l with
-  | true => left; simp [commitMaster]
-  | false =>
-    by_cases hw : (w == Who.M) = true
-    · by_cases h2 : (!treeUpToDate s.tM s.master) = true
-      · left; simp [commitMaster, hw, h2]
-      · right
-        refine ⟨by simp [commitMaster, hw, h2], Or.inr (Or.inl ⟨⟨.master, r, .commit⟩, by simp, ?_⟩)⟩
-        simp [commitMaster, hw, h2]
-    · by_cases h2 : (!treeUpToDate s.tL s.master) = true
-      · left; simp [commitMaster, hw, h2]
-      · right
-        refine ⟨by simp [commitMaster, hw, h2], Or.inr (Or.inl ⟨⟨.master, r, .commit⟩, by simp, ?_⟩)⟩
-        simp [commitMaster, hw, h2]
+/-! ### refused operations -/
 
-theorem updateH_shape (s : St) : Shape s (updateH s) := by
-  by_cases hb : s.bound = true
-  · right
-    by_cases hc : ((if s.master == null then s.loc else s.master) != s.loc) = true
-    · refine ⟨by simp [updateH, hb], Or.inr (Or.inl ⟨⟨.loc, (if s.master == null then s.loc else s.master), .update⟩,
-        by simp, ?_⟩)⟩
-      simp only [updateH, hb, if_true, hc]
-    · refine ⟨by simp [updateH, hb], Or.inl ?_⟩
-      simp only [updateH, hb, if_true, hc]
-      simp
-  · right
-    have hb' : s.bound = false := by simpa using hb
-    exact ⟨by simp [updateH, hb'], Or.inl (by simp [updateH, hb'])⟩
+/-- **refused operations change nothing** — EVERY operation, in either
+checkout: a refused operation leaves the whole state as it was, with one
+exception: `DivergedBranches` may have been raised after the master's tip (and
+nothing else but the log of tip writes) was moved; `pull_other_refused_exact`
+says exactly when -/
+theorem refused_noop (s : St) (op : Op) (h : (step s op).2 ≠ .ok) :
+    (step s op).1 = s ∨
+    ((step s op).2 = .diverged ∧ ∃ m l, (step s op).1 = { s with master := m, log := l }) :=
+  step_refused s op h
 
-theorem pullH_shape (s : St) : Shape s (pullH s) := by
-  unfold pullH
-  split
-  · right; exact ⟨rfl, Or.inl rfl⟩
-  · split
-    · right; exact ⟨rfl, Or.inl rfl⟩
-    · split
-      · left; exact ⟨by simp, rfl⟩
-      · right; exact ⟨rfl, Or.inr (Or.inl ⟨⟨.loc, s.master, .pull⟩, by simp, rfl⟩)⟩
+/-- a refused pull from another branch into the checkout: nothing has changed,
+or — the checkout is bound, the pull is not `--local`, the master accepted the
+revision and the local branch has diverged from it — exactly the master's tip
+has moved (finding pull-into-bound-branch-master-moved-before-local-diverged) -/
+theorem pull_other_refused_exact (s : St) (stop : Option Rev) (ow l : Bool)
+    (h : (step s (.pullOther .H stop ow l)).2 ≠ .ok) :
+    (step s (.pullOther .H stop ow l)).1 = s ∨
+    (l = false ∧ s.bound = true ∧ s.masterBound = false ∧ (step s (.pullOther .H stop ow l)).2 = .diverged ∧
+      ∃ m', updateRevisions s.graph s.master s.other stop ow = some m' ∧
+        updateRevisions s.graph s.loc s.other stop ow = none ∧
+        (step s (.pullOther .H stop ow l)).1 =
+          { s with master := m', log := logIf (m' != s.master) ⟨.master, m', .pull⟩ s.log }) :=
+  pullOtherH_refused s stop ow l h
 
-/-- the operations of the original alphabet (everything but the other branch
-`O`, pulls from it and pushes) -/
-def Op.basic : Op → Bool
-  | .commit .. | .update _ | .pull | .bind | .unbind => true
-  | _ => false
+/-- every refused operation other than a pull from another branch into a
+heavyweight checkout leaves the whole state unchanged -/
+theorem refused_noop_strict (s : St) (op : Op) (hop : ∀ st ow l, op ≠ .pullOther .H st ow l)
+    (hop2 : ∀ o, op ≠ .onH2 o) (h : (step s op).2 ≠ .ok) : (step s op).1 = s :=
+  step_refused_basic s op hop hop2 h
 
-theorem step_shape (s : St) (op : Op) (hb : op.basic = true) : Shape s (step s op) := by
-  cases op with
-  | commit w r l =>
-    cases w with
-    | H => exact commitH_shape s r l
-    | M => exact commitMaster_shape s .M r l
-    | L => exact commitMaster_shape s .L r l
-  | update w =>
-    cases w with
-    | H => exact updateH_shape s
-    | M => right; exact ⟨rfl, Or.inl rfl⟩
-    | L => right; exact ⟨rfl, Or.inl rfl⟩
-  | pull => exact pullH_shape s
-  | bind => right; exact ⟨rfl, Or.inl rfl⟩
-  | unbind => right; exact ⟨rfl, Or.inl rfl⟩
-  | commitO r => simp [Op.basic] at hb
-  | syncO => simp [Op.basic] at hb
-  | pullOther w st ow l => simp [Op.basic] at hb
-  | push w => simp [Op.basic] at hb
-
-def notBC (e : Entry) : Bool := !(e.br == .loc && e.cause == .boundCommit)
-
-/-- what a step may do to the log: push entries that are not bound-commit local
-writes, or the (local, master) pair of a bound commit -/
-def LogShape (s : St) (x : St × Out) : Prop :=
-  (∃ es : List Entry, (∀ e ∈ es, notBC e = true) ∧ x.1.log = es ++ s.log) ∨
-  (∃ r : Rev, x.1.log = ⟨.loc, r, .boundCommit⟩ :: ⟨.master, r, .boundCommit⟩ :: s.log)
-
-theorem logShape_of_shape {s : St} {x : St × Out} (h : Shape s x) : LogShape s x := by
-  rcases h with ⟨_, h2⟩ | ⟨_, h2 | ⟨e, he, h2⟩ | ⟨r, h2⟩⟩
-  · left; exact ⟨[], by simp, by rw [h2]; rfl⟩
-  · left; exact ⟨[], by simp, by rw [h2]; rfl⟩
-  · left; refine ⟨[e], ?_, by rw [h2]; rfl⟩
-    intro e' he'; simp at he'; subst he'; simp [notBC, he]
-  · right; exact ⟨r, h2⟩
-
-theorem logIf_shape (c : Bool) (e : Entry) (l : List Entry) (he : notBC e = true) :
-    ∃ es : List Entry, (∀ x ∈ es, notBC x = true) ∧ logIf c e l = es ++ l := by
-  cases c
-  · exact ⟨[], by simp, rfl⟩
-  · refine ⟨[e], ?_, rfl⟩
-    intro x hx; simp at hx; subst hx; exact he
-
-theorem pullOtherH_logShape (s : St) (stop : Option Rev) (ow l : Bool) : LogShape s (pullOtherH s stop ow l) := by
-  unfold pullOtherH
-  split
-  · left; exact ⟨[], by simp, rfl⟩
-  · simp only
-    split
-    · left; exact ⟨[], by simp, rfl⟩
-    · rename_i m' _
-      obtain ⟨es1, h1, e1⟩ := logIf_shape (m' != s.master) ⟨.master, m', .pull⟩ s.log (by simp [notBC])
-      split
-      · left; exact ⟨es1, h1, e1⟩
-      · rename_i l' _
-        obtain ⟨es2, h2, e2⟩ := logIf_shape (l' != s.loc) ⟨.loc, l', .pull⟩
-          (logIf (m' != s.master) ⟨.master, m', .pull⟩ s.log) (by simp [notBC])
-        left
-        refine ⟨es2 ++ es1, ?_, ?_⟩
-        · intro e he
-          rcases List.mem_append.mp he with h | h
-          · exact h2 e h
-          · exact h1 e h
-        · show logIf (l' != s.loc) ⟨.loc, l', .pull⟩ (logIf (m' != s.master) ⟨.master, m', .pull⟩ s.log) = _
-          rw [e2, e1, List.append_assoc]
-
-theorem pullOtherMaster_logShape (s : St) (w : Who) (stop : Option Rev) (ow l : Bool) :
-    LogShape s (pullOtherMaster s w stop ow l) := by
-  unfold pullOtherMaster
-  split
-  · left; exact ⟨[], by simp, rfl⟩
-  · split
-    · left; exact ⟨[], by simp, rfl⟩
-    · rename_i m' _
-      obtain ⟨es1, h1, e1⟩ := logIf_shape (m' != s.master) ⟨.master, m', .pull⟩ s.log (by simp [notBC])
-      left
-      refine ⟨es1, h1, ?_⟩
-      simp only
-      split <;> exact e1
-
-theorem pushTo_log (s : St) (src : Rev) : (pushTo s src).1.log = s.log := by
-  unfold pushTo
-  split <;> rfl
-
-theorem step_logShape (s : St) (op : Op) : LogShape s (step s op) := by
-  by_cases hb : op.basic = true
-  · exact logShape_of_shape (step_shape s op hb)
-  · cases op with
-    | commit w r l => simp [Op.basic] at hb
-    | update w => simp [Op.basic] at hb
-    | pull => simp [Op.basic] at hb
-    | bind => simp [Op.basic] at hb
-    | unbind => simp [Op.basic] at hb
-    | commitO r => left; exact ⟨[], by simp, rfl⟩
-    | syncO => left; exact ⟨[], by simp, rfl⟩
-    | pullOther w st ow l =>
-      cases w with
-      | H => exact pullOtherH_logShape s st ow l
-      | M => exact pullOtherMaster_logShape s .M st ow l
-      | L => exact pullOtherMaster_logShape s .L st ow l
-    | push w =>
-      left
-      refine ⟨[], by simp, ?_⟩
-      cases w <;> simp [step, pushTo_log]
-
-/-- **refused operations change nothing** — for every operation except a pull
-from another branch into the heavyweight checkout (see
-`pull_other_master_moved_witness`) -/
-theorem refused_noop (s : St) (op : Op) (hop : ∀ st ow l, op ≠ .pullOther .H st ow l)
-    (h : (step s op).2 ≠ .ok) : (step s op).1 = s := by
-  by_cases hb : op.basic = true
-  · rcases step_shape s op hb with ⟨_, h2⟩ | ⟨h1, _⟩
-    · exact h2
-    · exact absurd h1 h
-  · cases op with
-    | commit w r l => simp [Op.basic] at hb
-    | update w => simp [Op.basic] at hb
-    | pull => simp [Op.basic] at hb
-    | bind => simp [Op.basic] at hb
-    | unbind => simp [Op.basic] at hb
-    | commitO r => simp [step] at h
-    | syncO => simp [step] at h
-    | pullOther w st ow l =>
-      cases w with
-      | H => exact absurd rfl (hop st ow l)
-      | M =>
-        simp only [step, pullOtherMaster] at h ⊢
-        split at h
-        · simp_all
-        · split at h <;> simp_all
-      | L =>
-        simp only [step, pullOtherMaster] at h ⊢
-        split at h
-        · simp_all
-        · split at h <;> simp_all
-    | push w =>
-      cases w <;>
-      · simp only [step, pushTo] at h ⊢
-        split at h <;> simp_all
-
-theorem masterFirst_cons_other (e : Entry) (l : List Entry)
-    (he : (e.br == .loc && e.cause == .boundCommit) = false) : masterFirst (e :: l) = masterFirst l := by
-  cases l with
-  | nil => simp [masterFirst, he]
-  | cons m rest => simp [masterFirst, he]
-
-theorem masterFirst_append_other (es l : List Entry) (h : ∀ e ∈ es, notBC e = true) :
-    masterFirst (es ++ l) = masterFirst l := by
-  induction es with
-  | nil => rfl
-  | cons e rest ih =>
-    have he : (e.br == .loc && e.cause == .boundCommit) = false := by
-      have := h e (by simp)
-      unfold notBC at this
-      cases hh : (e.br == .loc && e.cause == .boundCommit)
-      · rfl
-      · rw [hh] at this; cases this
-    rw [List.cons_append, masterFirst_cons_other _ _ he]
-    exact ih (fun x hx => h x (by simp [hx]))
-
-theorem masterFirst_pair (r : Rev) (l : List Entry) :
-    masterFirst (⟨.loc, r, .boundCommit⟩ :: ⟨.master, r, .boundCommit⟩ :: l) = masterFirst l := by
-  simp [masterFirst]
-
-theorem step_master_first (s : St) (op : Op) (h : masterFirst s.log = true) :
-    masterFirst (step s op).1.log = true := by
-  rcases step_logShape s op with ⟨es, hes, h2⟩ | ⟨r, h2⟩
-  · rw [h2, masterFirst_append_other es s.log hes]; exact h
-  · rw [h2, masterFirst_pair]; exact h
+/-! ### pull from another branch -/
 
 /-- **pull from another branch, master first to the SAME revision**: a
 successful non-local pull (any stop revision, with or without overwrite) in a
@@ -372,14 +206,17 @@ theorem bound_pull_other_same_revision (s : St) (stop : Option Rev) (ow : Bool)
         ⟨.loc, (step s (.pullOther .H stop ow false)).1.loc, .pull⟩ ::
         ⟨.master, (step s (.pullOther .H stop ow false)).1.loc, .pull⟩ :: s.log) := by
   simp only [step, pullOtherH, hb, hl] at h ⊢
-  cases hu : updateRevisions s.graph s.master s.other stop ow with
-  | none => simp [hu] at h
-  | some m' =>
-    simp only [hu, Bool.not_true, Bool.and_false, Bool.false_eq_true, if_false, Bool.not_false, Bool.and_true, if_true]
-    refine ⟨trivial, ?_⟩
-    intro hne
-    have : (m' != s.master) = true := by simpa using hne
-    simp [logIf, this]
+  cases hmb : s.masterBound
+  · cases hu : updateRevisions s.graph s.master s.other stop ow with
+    | none => simp [hmb, hu] at h
+    | some m' =>
+      simp only [Bool.not_true, Bool.and_false, Bool.false_eq_true, if_false, Bool.not_false,
+        Bool.and_true, if_true]
+      refine ⟨trivial, ?_⟩
+      intro hne
+      have : (m' != s.master) = true := by simpa using hne
+      simp [logIf, this]
+  · simp [hmb] at h
 
 /-- a refused pull from another branch never touches the local branch, the
 checkout's tree or the binding -/
@@ -387,22 +224,10 @@ theorem pull_other_refused_local_unchanged (s : St) (stop : Option Rev) (ow l : 
     (h : (step s (.pullOther .H stop ow l)).2 ≠ .ok) :
     (step s (.pullOther .H stop ow l)).1.loc = s.loc ∧ (step s (.pullOther .H stop ow l)).1.tH = s.tH ∧
     (step s (.pullOther .H stop ow l)).1.bound = s.bound := by
-  simp only [step]
-  unfold pullOtherH
-  split
-  · exact ⟨rfl, rfl, rfl⟩
-  · simp only
-    split
-    · exact ⟨rfl, rfl, rfl⟩
-    · split
-      · exact ⟨rfl, rfl, rfl⟩
-      · rename_i hne _ m' hm _ l' hl'
-        exfalso
-        apply h
-        simp only [step]
-        unfold pullOtherH
-        simp only [hne, hm, hl']
-        simp
+  have e : step s (.pullOther .H stop ow l) = pullOtherH s stop ow l := rfl
+  rcases pullOtherH_refused s stop ow l h with h1 | ⟨_, _, _, _, m', _, _, h3⟩
+  · rw [e, h1]; exact ⟨rfl, rfl, rfl⟩
+  · rw [e, h3]; exact ⟨rfl, rfl, rfl⟩
 
 /-- **Witness (statement violated)**: the checkout has a local-only commit, the
 other branch is ahead of the master: the pull moves the master and then raises
@@ -418,24 +243,139 @@ theorem pull_other_master_moved_witness :
 theorem pull_other_local_only (s : St) (stop : Option Rev) (ow : Bool) :
     (step s (.pullOther .H stop ow true)).1.master = s.master := by
   simp only [step, pullOtherH]
-  split
-  · rfl
-  · simp only [Bool.not_true, Bool.and_false, Bool.false_eq_true, if_false]
-    split
-    · rfl
-    · rfl
+  grind
 
-/-- **invariant over operation sequences**: in the log of tip writes of *any*
-sequence of commits (through the master, the checkouts, with --local),
-updates, pulls, binds and unbinds, every local write made by a bound commit
-directly follows the master write of the same revision -/
+/-! ### the second checkout -/
+
+/-- **symmetry**: an operation in the second heavyweight checkout is the same
+operation in the first one with the roles of the two checkouts exchanged; so
+every theorem about `H` holds for `H2` (instantiate it at `swapH s`) -/
+theorem h2_symmetry (s : St) (op : Op) :
+    step s (.onH2 op) = (swapH (step (swapH s) op).1, (step (swapH s) op).2) ∧ swapH (swapH s) = s :=
+  ⟨rfl, swapH_swapH s⟩
+
+/-- master first, for the second checkout: a successful bound commit there ends
+with master tip = its tip = the new revision, written master first; the first
+checkout is not touched (and is now behind the master) -/
+theorem bound_commit_master_first_h2 (s : St) (r : Rev) (hb : s.bound2 = true)
+    (h : (step s (.onH2 (.commit .H r false))).2 = .ok) :
+    (step s (.onH2 (.commit .H r false))).1.master = r ∧ (step s (.onH2 (.commit .H r false))).1.loc2 = r ∧
+    (step s (.onH2 (.commit .H r false))).1.loc = s.loc ∧ (step s (.onH2 (.commit .H r false))).1.tH = s.tH ∧
+    (step s (.onH2 (.commit .H r false))).1.log =
+      ⟨.loc2, r, .boundCommit⟩ :: ⟨.master, r, .boundCommit⟩ :: s.log := by
+  have hb' : (swapH s).bound = true := hb
+  obtain ⟨h1, h2, h3, h4⟩ := bound_commit_master_first (swapH s) r hb' h
+  have hf := (commitH_tree (swapH s) r false)
+  refine ⟨h1, h2, ?_, ?_, ?_⟩
+  · show (swapH (step (swapH s) (.commit .H r false)).1).loc = s.loc
+    have : (commitH (swapH s) r false).1.loc2 = (swapH s).loc2 := by unfold commitH; grind
+    exact this
+  · show (swapH (step (swapH s) (.commit .H r false)).1).tH = s.tH
+    have : (commitH (swapH s) r false).1.tH2 = (swapH s).tH2 := by unfold commitH; grind
+    exact this
+  · show ((step (swapH s) (.commit .H r false)).1.log.map Entry.swap) = _
+    rw [h3]
+    simp [swapH, swap_comp_swap, Entry.swap]
+
+/-! ### invariants over operation sequences -/
+
+/-- **master first, always**: in the log of tip writes of *any* sequence of
+operations (commits through the master, either checkout, with --local, updates,
+pulls from the master and from other branches, pushes, binds and unbinds) every
+write to a checkout's branch made by a bound commit directly follows the master
+write of the same revision -/
 theorem run_master_first (ops : List Op) (s : St) (h : masterFirst s.log = true) :
     masterFirst (run s ops).log = true := by
   induction ops generalizing s with
   | nil => exact h
   | cons op rest ih => exact ih (step s op).1 (step_master_first s op h)
 
-/-! non-vacuity -/
+/-- **in step, one operation**: a bound checkout whose tip equals the master's
+tip is still bound and in step after any operation made through it that is not
+local-only, and after any operation that writes neither the master nor its
+branch (`Op.keepsStep`: this includes local commits, updates, pulls from the
+master, local pulls, pushes, binds and unbinds in the SECOND checkout) —
+whether the operation succeeds or is refused -/
+theorem in_step_preserved (s : St) (op : Op) (hop : op.keepsStep = true)
+    (hb : s.bound = true) (hl : s.loc = s.master) :
+    (step s op).1.bound = true ∧ (step s op).1.loc = (step s op).1.master :=
+  step_inStep s op hop ⟨hb, hl⟩
+
+/-- **in step, always**: along any sequence of such operations (any length, any
+stop revisions, overwrite or not, successful or refused, whatever the other
+branch does) a checkout that is in step stays in step -/
+theorem run_in_step_invariant (ops : List Op) (hops : ∀ op ∈ ops, op.keepsStep = true) (s : St)
+    (hb : s.bound = true) (hl : s.loc = s.master) :
+    (run s ops).bound = true ∧ (run s ops).loc = (run s ops).master := by
+  induction ops generalizing s with
+  | nil => exact ⟨hb, hl⟩
+  | cons op rest ih =>
+    obtain ⟨h1, h2⟩ := step_inStep s op (hops op (by simp)) ⟨hb, hl⟩
+    exact ih (fun o ho => hops o (by simp [ho])) (step s op).1 h1 h2
+
+/-- a new checkout is in step, and stays so as long as it is used without
+`--local` and nobody else commits to the master -/
+theorem run_in_step_from_init (ops : List Op) (hops : ∀ op ∈ ops, op.keepsStep = true) :
+    (run init ops).loc = (run init ops).master :=
+  (run_in_step_invariant ops hops init rfl rfl).2
+
+/-- **getting back in step**: from ANY state with a bound checkout and a
+non-empty master, `update` followed by any sequence of step-keeping operations
+ends in step; so does a successful bound commit followed by such a sequence -/
+theorem run_in_step_after_update (s : St) (hb : s.bound = true) (hm : s.master ≠ null)
+    (ops : List Op) (hops : ∀ op ∈ ops, op.keepsStep = true) :
+    (run s (.update .H :: ops)).loc = (run s (.update .H :: ops)).master := by
+  obtain ⟨_, h2, h3, _⟩ := update_equalises_partial s hb hm
+  have hb' : (step s (.update .H)).1.bound = true := by simp [step, updateH, hb]
+  exact (run_in_step_invariant ops hops (step s (.update .H)).1 hb' (h2.trans h3.symm)).2
+
+theorem run_in_step_after_commit (s : St) (r : Rev) (hb : s.bound = true)
+    (hok : (step s (.commit .H r false)).2 = .ok)
+    (ops : List Op) (hops : ∀ op ∈ ops, op.keepsStep = true) :
+    (run s (.commit .H r false :: ops)).loc = (run s (.commit .H r false :: ops)).master := by
+  obtain ⟨h1, h2, _, _⟩ := bound_commit_master_first s r hb hok
+  have hb' : (step s (.commit .H r false)).1.bound = true := by
+    simp only [step]; unfold commitH; grind
+  exact (run_in_step_invariant ops hops (step s (.commit .H r false)).1 hb' (h2.trans h1.symm)).2
+
+/-- **tree basis = branch tip** is an invariant of every reachable state: after
+any sequence of any operations (from a state where it holds, e.g. `init`) the
+working tree of each heavyweight checkout is based on the tip of its branch -/
+theorem run_tree_basis_invariant (ops : List Op) (s : St)
+    (h : s.tH.basis = s.loc ∧ s.tH2.basis = s.loc2) :
+    (run s ops).tH.basis = (run s ops).loc ∧ (run s ops).tH2.basis = (run s ops).loc2 := by
+  induction ops generalizing s with
+  | nil => exact h
+  | cons op rest ih => exact ih (step s op).1 (step_treeInv s op h)
+
+/-! ### revnos -/
+
+/-- **revnos of a bound commit**: when the checkout's tree is based on its
+branch tip (which holds in every reachable state) a successful bound commit
+leaves master and local branch with the same tip whose revno — the length of
+its left-hand history — is the master's old revno plus one -/
+theorem bound_commit_revnos (s : St) (r : Rev) (hr : r ≠ null) (hb : s.bound = true)
+    (ht : s.tH.basis = s.loc) (h : (step s (.commit .H r false)).2 = .ok) :
+    revno (step s (.commit .H r false)).1.graph (step s (.commit .H r false)).1.master = revno s.graph s.master + 1 ∧
+    revno (step s (.commit .H r false)).1.graph (step s (.commit .H r false)).1.loc = revno s.graph s.master + 1 := by
+  obtain ⟨h1, h2, _, _⟩ := bound_commit_master_first s r hb h
+  have hg : (step s (.commit .H r false)).1.graph = addRev s.graph r s.tH.parents ∧ s.loc = s.master := by
+    simp only [step] at h ⊢
+    unfold commitH at h ⊢
+    grind
+  rw [h1, h2, hg.1, revno_addRev_self s.graph r s.tH hr, ht, hg.2]
+  exact ⟨rfl, rfl⟩
+
+/-- the same in every state reachable from `init` -/
+theorem run_bound_commit_revnos (ops : List Op) (r : Rev) (hr : r ≠ null)
+    (hb : (run init ops).bound = true) (h : (step (run init ops) (.commit .H r false)).2 = .ok) :
+    revno (step (run init ops) (.commit .H r false)).1.graph (step (run init ops) (.commit .H r false)).1.master
+      = revno (run init ops).graph (run init ops).master + 1 ∧
+    revno (step (run init ops) (.commit .H r false)).1.graph (step (run init ops) (.commit .H r false)).1.loc
+      = revno (run init ops).graph (run init ops).master + 1 :=
+  bound_commit_revnos _ r hr hb (run_tree_basis_invariant ops init ⟨rfl, rfl⟩).1 h
+
+/-! ### non-vacuity -/
 
 example : masterFirst init.log = true := rfl
 
@@ -463,9 +403,38 @@ example :
     (step s (.pullOther .H (some "r3") false false)).1.master = "r3" ∧
     (step s (.pullOther .H (some "r3") false false)).1.loc = "r3" := by decide
 
-/-- a diverged pull is refused -/
+/-- a diverged pull is refused; `pull_equalises` applies to a checkout that is behind -/
 example :
     let s := run init [.commit .M "r1" false, .update .H, .commit .H "r2" true, .commit .M "r3" false]
     (step s .pull).2 = .diverged := by decide
+example :
+    let s := run init [.commit .M "r1" false, .update .H, .commit .M "r2" false]
+    s.master ≠ null ∧ isAncestor s.graph s.master s.loc = false ∧ (step s .pull).2 = .ok ∧
+    (step s .pull).1.loc = "r2" := by decide
+
+/-- two checkouts: a commit through the second one takes the first one out of
+date; after `update` it commits again; the revnos are the left-hand lengths -/
+example :
+    let s := run init [.commit .M "r1" false, .update .H, .onH2 (.update .H), .onH2 (.commit .H "r2" false),
+                       .commit .H "r3" false, .update .H, .commit .H "r4" false, .onH2 (.commit .H "r5" false)]
+    (s.master, s.loc, s.loc2) = ("r4", "r4", "r2") ∧ revno s.graph s.master = 3 ∧ revno s.graph s.loc2 = 2 ∧
+    s.log.map (fun e => (e.br, e.rev)) =
+       [(.loc, "r4"), (.master, "r4"), (.loc, "r2"), (.loc2, "r2"), (.master, "r2"), (.loc2, "r1"), (.loc, "r1"),
+        (.master, "r1")] := by
+  decide
+
+/-- a step-keeping sequence with commits, pulls with a stop revision and pushes -/
+example :
+    let ops := [Op.commit .H "r1" false, .syncO, .commitO "r2", .commitO "r3", .pullOther .H (some "r2") false false,
+                .onH2 (.update .H), .onH2 (.commit .H "r9" true), .commit .H "r4" false, .push .H, .pull, .update .H,
+                .onH2 .pull, .pullOther .H none false false]
+    (∀ op ∈ ops, op.keepsStep = true) ∧ (run init ops).loc = "r4" ∧ (run init ops).master = "r4" ∧
+    (run init ops).loc2 = "r9" := by decide
+
+/-- a bound master: the commit through the checkout is refused, and accepted again after `unbindM` -/
+example :
+    let s := run init [.commit .M "r1" false, .update .H, .bindM]
+    (step s (.commit .H "r2" false)).2 = .doubleBound ∧
+    (step (step s .unbindM).1 (.commit .H "r2" false)).2 = .ok := by decide
 
 end BreezyVerif.C23
